@@ -354,8 +354,12 @@ class RequestHandler(BaseProtocol, Generic[_Request]):
         if self._keepalive_handle is not None:
             self._keepalive_handle.cancel()
 
+        # A timeout of 0 is no allowance at all (not "no limit", which is what
+        # ceil_timeout() makes of it): straight to the forced close below.
+        no_wait = timeout is not None and timeout <= 0
+
         # Wait for graceful handler completion
-        if self._request_in_progress:
+        if self._request_in_progress and not no_wait:
             # The future is only created when we are shutting
             # down while the handler is still processing a request
             # to avoid creating a future for every request.
@@ -377,7 +381,11 @@ class RequestHandler(BaseProtocol, Generic[_Request]):
                 if self._current_request is not None:
                     self._current_request._cancel(asyncio.CancelledError())
 
-                if self._task_handler is not None and not self._task_handler.done():
+                if (
+                    self._task_handler is not None
+                    and not self._task_handler.done()
+                    and not no_wait
+                ):
                     await asyncio.shield(self._task_handler)
         except (asyncio.CancelledError, asyncio.TimeoutError):
             if (
